@@ -23,6 +23,26 @@ def load_known():
     return json.load(open(KF_PATH))['findings']
 
 
+def source_changed():
+    """files of $FXP_REPO/fxpmath whose normalised AST differs from anchors.lock.json (escalation only, never a verdict)."""
+    import ast, hashlib
+    repo = os.environ.get('FXP_REPO', '/repo')
+    try:
+        lock = json.load(open(os.path.join(VERIF, 'anchors.lock.json')))
+    except Exception:
+        return []
+    changed = []
+    for fn, h in lock.items():
+        try:
+            src = open(os.path.join(repo, 'fxpmath', fn)).read()
+            cur = hashlib.sha256(ast.dump(ast.parse(src), include_attributes=False).encode()).hexdigest()
+        except Exception:
+            cur = None
+        if cur != h:
+            changed.append(fn)
+    return changed
+
+
 def load_corpus(pid):
     path = os.path.join(VERIF, 'corpus', pid + '.jsonl')
     out = []
@@ -82,6 +102,29 @@ def judge(full_lines):
     return res
 
 
+def generic_shrink(line, fails):
+    """reduce parallel list arguments `[a,b,c]` to the single position that still fails (greedy)."""
+    toks = line.split()
+    lists = [(i, t[1:-1].split(',')) for i, t in enumerate(toks) if t.startswith('[') and t.endswith(']') and len(t) > 2]
+    if not lists:
+        return line
+    n = max(len(l) for _, l in lists)
+    if n <= 1:
+        return line
+    for k in range(n):
+        cand = list(toks)
+        for i, l in lists:
+            if len(l) == n:
+                cand[i] = '[' + l[k] + ']'
+        c = ' '.join(cand)
+        try:
+            if fails(c):
+                return c
+        except Exception:
+            pass
+    return line
+
+
 def write_replay(pid, seed, tier, kind, entries, note):
     os.makedirs(os.path.join(VERIF, 'replays'), exist_ok=True)
     h = hashlib.sha1(('\n'.join(e['line'] for e in entries) + kind).encode()).hexdigest()[:10]
@@ -137,6 +180,7 @@ def main(argv):
     known = [k for k in load_known() if k['property'] == pid]
     known_open = [k for k in known if k['status'] == 'known']
 
+    changed = []
     if replay is not None:
         arg_lines = [c['line'] for c in replay['cases']]
         corpus_n = 0
@@ -146,6 +190,12 @@ def main(argv):
         corpus_n = len(arg_lines)
         rng = random.Random('%s/%d/%s' % (pid, seed, tier))
         arg_lines += list(mod.generate(tier, rng))
+        changed = source_changed()
+        if changed and tier == 'quick':
+            # the source differs from the tree the model was validated against: triple the quick budget
+            for extra in (1000, 2000):
+                rng_x = random.Random('%s/%d/%s' % (pid, seed + extra, tier))
+                arg_lines += list(mod.generate(tier, rng_x))
 
     full = exec_lines(mod, arg_lines, procs)
     verdicts = judge(full)
@@ -203,7 +253,7 @@ def main(argv):
         for k, vs in sorted(dbg.items(), key=lambda kv: -len(kv[1])):
             print(('DEBUG class %s %d | e.g. %s => model %s' % (k, len(vs), vs[0][1][:300], vs[0][2][:200]))[:700])
     if new_fails:
-        shr = getattr(mod, 'shrink', None)
+        shr = getattr(mod, 'shrink', generic_shrink)
         entries = []
         for v in new_fails[:20]:
             line = v[1].split(' | ')[0]
@@ -272,6 +322,7 @@ def main(argv):
             'exhaustive_subdomains': stats.get('exhaustive_subdomains', []),
             'distribution': stats.get('distribution', {}),
             'corpus_cases': corpus_n,
+            'source_files_changed_since_lock': changed,
             'directed_search_cases': searched,
             'known_findings_printed': [k['id'] for k in known_open],
             'known_finding_hits': {k: len(v) for k, v in kf_hit.items()},
